@@ -1136,3 +1136,351 @@ Section Parser.
     rewrite WS_flush_nil by exact Hw2. reflexivity.
   Qed.
 End Parser.
+
+(* ------------------------------------------------------------------------------------------------ *)
+(* induction principle for the nested value type *)
+
+Section ValueInd.
+  Variable F : Type.
+  Variable P : value F -> Prop.
+  Hypothesis Hnull : P VNull.
+  Hypothesis Hbool : forall b, P (VBool b).
+  Hypothesis Hnum : forall x, P (VNum x).
+  Hypothesis Hstr : forall s, P (VStr s).
+  Hypothesis Harr : forall l, Forall P l -> P (VArr l).
+  Hypothesis Hobj : forall m, Forall (fun kv => P (snd kv)) m -> P (VObj m).
+
+  Fixpoint value_ind' (v : value F) : P v :=
+    match v with
+    | VNull => Hnull
+    | VBool b => Hbool b
+    | VNum x => Hnum x
+    | VStr s => Hstr s
+    | VArr l => Harr l ((fix go (l : list (value F)) : Forall P l :=
+                           match l with
+                           | [] => Forall_nil _
+                           | x :: r => Forall_cons x (value_ind' x) (go r)
+                           end) l)
+    | VObj m => Hobj m ((fix go (m : list (str * value F)) : Forall (fun kv => P (snd kv)) m :=
+                           match m with
+                           | [] => Forall_nil _
+                           | (k, x) :: r => Forall_cons (k, x) (value_ind' x) (go r)
+                           end) m)
+    end.
+End ValueInd.
+
+(* ------------------------------------------------------------------------------------------------ *)
+(* the serialiser emits RFC 8259 text denoting the value *)
+
+Lemma small_cases (P : N -> Prop) : (forall n : nat, (n < 32)%nat -> P (N.of_nat n)) -> forall c, c < 32 -> P c.
+Proof.
+  intros H c Hc. rewrite <- (N2Nat.id c). apply H. lia.
+Qed.
+
+Lemma u_escape_small (c : N) :
+  c < 32 ->
+  hex4 (hex_digit (c / 4096 mod 16)) (hex_digit (c / 256 mod 16)) (hex_digit (c / 16 mod 16)) (hex_digit (c mod 16)) = Some c.
+Proof.
+  revert c. apply small_cases. intros n Hn.
+  do 32 (destruct n as [|n]; [vm_compute; reflexivity|]). lia.
+Qed.
+
+Lemma esc_char_valid (c : N) (t o : str) :
+  c <= 0x10ffff -> JChars false t o -> JChars false (esc_char c ++ t) (c :: o).
+Proof.
+  intros Hc Ht. unfold esc_char.
+  destruct (c =? 0x22) eqn:E1; [b2p; subst; apply jc_escape; [unfold escape_of; tauto|exact Ht]|].
+  destruct (c =? 0x5c) eqn:E2; [b2p; subst; apply jc_escape; [unfold escape_of; tauto|exact Ht]|].
+  destruct (c =? 0x2f) eqn:E3; [b2p; subst; apply jc_escape; [unfold escape_of; tauto|exact Ht]|].
+  destruct (c =? 0x08) eqn:E4; [b2p; subst; apply jc_escape; [unfold escape_of; tauto|exact Ht]|].
+  destruct (c =? 0x0c) eqn:E5; [b2p; subst; apply jc_escape; [unfold escape_of; tauto|exact Ht]|].
+  destruct (c =? 0x0a) eqn:E6; [b2p; subst; apply jc_escape; [unfold escape_of; tauto|exact Ht]|].
+  destruct (c =? 0x0d) eqn:E7; [b2p; subst; apply jc_escape; [unfold escape_of; tauto|exact Ht]|].
+  destruct (c =? 0x09) eqn:E8; [b2p; subst; apply jc_escape; [unfold escape_of; tauto|exact Ht]|].
+  destruct (unescapedb c) eqn:Eu.
+  { apply unescapedb_true in Eu. apply jc_unescaped; assumption. }
+  assert (Hsmall : c < 32).
+  { destruct (N.lt_ge_cases c 32) as [L|G]; [exact L|]. exfalso.
+    assert (unescapedb c = true); [|congruence]. apply unescapedb_true. unfold unescaped. b2p. lia. }
+  assert ((c <? 0x10000) = true) as -> by nbool.
+  unfold u_escape. cbn [app]. apply jc_u; [|unfold surrogate; lia|exact Ht].
+  apply hex4_spec. apply u_escape_small. exact Hsmall.
+Qed.
+
+Lemma string_body_valid (s : str) : str_ok s -> JChars false (flat_map esc_char s) s.
+Proof.
+  intro H. induction H as [|c s Hc Hs IH]; cbn [flat_map]; [constructor|].
+  apply esc_char_valid; assumption.
+Qed.
+
+(* the text produced by the two fold_left loops *)
+Fixpoint joined (pre : str) (items : list str) : str :=
+  match items with
+  | [] => []
+  | x :: r => match r with
+              | [] => pre ++ x
+              | _ :: _ => pre ++ x ++ [ch_comma] ++ joined pre r
+              end
+  end.
+
+Fixpoint joined_o (pre sep : str) (items : list (str * str)) : str :=
+  match items with
+  | [] => []
+  | (k, x) :: r => match r with
+                   | [] => pre ++ k ++ sep ++ x
+                   | _ :: _ => pre ++ k ++ sep ++ x ++ [ch_comma] ++ joined_o pre sep r
+                   end
+  end.
+
+Lemma fold_left_app_acc {A} (g : A -> str) (items : list A) (acc : str) :
+  fold_left (fun acc s => acc ++ g s) items acc = acc ++ flat_map g items.
+Proof.
+  revert acc. induction items as [|x r IH]; intro acc; cbn [fold_left flat_map].
+  - rewrite app_nil_r. reflexivity.
+  - rewrite IH, <- app_assoc. reflexivity.
+Qed.
+
+Lemma flat_map_joined (pre : str) (items : list str) :
+  items <> [] -> flat_map (fun s => pre ++ s ++ [ch_comma]) items = joined pre items ++ [ch_comma].
+Proof.
+  induction items as [|x r IH]; [contradiction|]. intros _. cbn [flat_map joined].
+  destruct r as [|y r'].
+  - cbn [flat_map]. rewrite app_nil_r, <- app_assoc. reflexivity.
+  - rewrite IH by discriminate. norm_app. reflexivity.
+Qed.
+
+Lemma flat_map_joined_o (pre sep : str) (items : list (str * str)) :
+  items <> [] ->
+  flat_map (fun kv => match kv with (k, v) => pre ++ k ++ sep ++ v ++ [ch_comma] end) items
+  = joined_o pre sep items ++ [ch_comma].
+Proof.
+  induction items as [|[k x] r IH]; [contradiction|]. intros _. cbn [flat_map joined_o].
+  destruct r as [|y r'].
+  - cbn [flat_map]. rewrite app_nil_r. norm_app. reflexivity.
+  - rewrite IH by discriminate. norm_app. reflexivity.
+Qed.
+
+Lemma pop_comma_snoc (x : str) : pop_comma (x ++ [ch_comma]) = x.
+Proof. unfold pop_comma. rewrite last_last, N.eqb_refl. apply removelast_last. Qed.
+
+Lemma WS_spaces (n : N) : WS (spaces n).
+Proof.
+  unfold spaces. induction (N.to_nat n) as [|k IH]; cbn [repeat]; [constructor|].
+  constructor; [left; reflexivity|exact IH].
+Qed.
+
+Lemma fold_left_ext_app {A} (f : str -> A -> str) (g : A -> str) (items : list A) (acc : str) :
+  (forall a x, f a x = a ++ g x) -> fold_left f items acc = acc ++ flat_map g items.
+Proof.
+  intro H. revert acc. induction items as [|x r IH]; intro acc; cbn [fold_left flat_map].
+  - rewrite app_nil_r. reflexivity.
+  - rewrite H, IH, <- app_assoc. reflexivity.
+Qed.
+
+Lemma array_to_string_eq (items : list str) (indent : option (N * N)) :
+  items <> [] ->
+  array_to_string items indent =
+  match indent with
+  | Some (ind, size) => ch_lbrack :: (joined (0x0a :: spaces (ind + size)) items ++ 0x0a :: spaces ind) ++ [ch_rbrack]
+  | None => ch_lbrack :: joined [] items ++ [ch_rbrack]
+  end.
+Proof.
+  intro Hne. unfold array_to_string. destruct items as [|x r]; [contradiction|].
+  destruct indent as [[ind size]|].
+  - rewrite (fold_left_ext_app _ (fun s => (0x0a :: spaces (ind + size)) ++ s ++ [ch_comma])) by (intros; reflexivity).
+    rewrite flat_map_joined by exact Hne. rewrite app_assoc, pop_comma_snoc.
+    unfold close_with. norm_app. reflexivity.
+  - rewrite (fold_left_ext_app _ (fun s => [] ++ s ++ [ch_comma])) by (intros; reflexivity).
+    rewrite flat_map_joined by exact Hne. rewrite app_assoc, pop_comma_snoc.
+    unfold close_with. norm_app. reflexivity.
+Qed.
+
+Lemma object_to_string_eq (items : list (str * str)) (indent : option (N * N)) :
+  items <> [] ->
+  object_to_string items indent =
+  match indent with
+  | Some (ind, size) =>
+    ch_lbrace :: (joined_o (0x0a :: spaces (ind + size)) [ch_colon; 0x20] items ++ 0x0a :: spaces ind) ++ [ch_rbrace]
+  | None => ch_lbrace :: joined_o [] [ch_colon] items ++ [ch_rbrace]
+  end.
+Proof.
+  intro Hne. unfold object_to_string. destruct items as [|x r]; [contradiction|].
+  destruct indent as [[ind size]|].
+  - rewrite (fold_left_ext_app _ (fun kv : str * str => match kv with (k, v) =>
+               (0x0a :: spaces (ind + size)) ++ k ++ [ch_colon; 0x20] ++ v ++ [ch_comma] end))
+      by (intros a [k v]; reflexivity).
+    rewrite flat_map_joined_o by exact Hne. rewrite app_assoc, pop_comma_snoc.
+    unfold close_with. norm_app. reflexivity.
+  - rewrite (fold_left_ext_app _ (fun kv : str * str => match kv with (k, v) =>
+               [] ++ k ++ [ch_colon] ++ v ++ [ch_comma] end))
+      by (intros a [k v]; reflexivity).
+    rewrite flat_map_joined_o by exact Hne. rewrite app_assoc, pop_comma_snoc.
+    unfold close_with. norm_app. reflexivity.
+Qed.
+
+Section Serialiser.
+  Variable F : Type.
+  Variable fparse : str -> option F.
+  Variable fdisplay : F -> str.
+  Variable ffinite : F -> Prop.
+  (* the two facts about f64 parsing / printing that the theorems rest on *)
+  Hypothesis display_is_number : forall x, ffinite x -> JNumber (fdisplay x).
+  Hypothesis parse_display : forall x, ffinite x -> fparse (fdisplay x) = Some x.
+
+  Notation JV := (JValue F fparse false).
+  Notation JE := (JElems F fparse false).
+  Notation JM := (JMembers F fparse false).
+
+  Lemma string_to_string_valid (s : str) : str_ok s -> JV (string_to_string s) (VStr s).
+  Proof. intro H. unfold string_to_string. apply jv_string. apply string_body_valid. exact H. Qed.
+
+  Lemma joined_elems (ser : value F -> str) (pre post : str) (l : list (value F)) :
+    l <> [] -> WS pre -> WS post -> Forall (fun x => JV (ser x) x) l ->
+    JE (joined pre (map ser l) ++ post) l.
+  Proof.
+    intros Hne Hpre Hpost H. induction H as [|x r Hx Hr IH]; [contradiction|].
+    cbn [map joined]. destruct r as [|y r'].
+    - cbn [map]. rewrite <- app_assoc. apply je_last; assumption.
+    - cbn [map]. change (pre ++ ser x ++ [ch_comma] ++ joined pre (ser y :: map ser r'))
+        with (pre ++ ser x ++ [] ++ 0x2c :: joined pre (map ser (y :: r'))).
+      norm_app. apply (je_cons F fparse false pre (ser x) x []); [exact Hpre|exact Hx|constructor|].
+      apply IH. discriminate.
+  Qed.
+
+  Lemma joined_members (ser : value F -> str) (pre sep0 post : str) (m : list (str * value F)) :
+    m <> [] -> WS pre -> WS sep0 -> WS post ->
+    Forall (fun kv => str_ok (fst kv) /\ JV (ser (snd kv)) (snd kv)) m ->
+    JM (joined_o pre (ch_colon :: sep0) (map (fun kv => match kv with (k, x) => (string_to_string k, ser x) end) m) ++ post) m.
+  Proof.
+    intros Hne Hpre Hsep Hpost H. induction H as [|kv r Hkv Hr IH]; [contradiction|]. destruct kv as [k x]. destruct Hkv as [Hk Hx].
+    cbn [fst snd] in Hk, Hx. cbn [map joined_o]. destruct r as [|y r'].
+    - cbn [map]. unfold string_to_string. norm_app.
+      apply (jm_last F fparse false pre (flat_map esc_char k) k [] sep0 (ser x) x post); try assumption;
+        [apply string_body_valid; exact Hk|constructor].
+    - cbn [map].
+      change (map (fun kv : str * value F => let (k0, x0) := kv in (string_to_string k0, ser x0)) (y :: r'))
+        with ((let (k0, x0) := y in (string_to_string k0, ser x0)) ::
+              map (fun kv : str * value F => let (k0, x0) := kv in (string_to_string k0, ser x0)) r') in IH.
+      destruct y as [ky xy]. unfold string_to_string at 1. norm_app.
+      apply (jm_cons F fparse false pre (flat_map esc_char k) k [] sep0 (ser x) x []); try assumption;
+        try constructor; [apply string_body_valid; exact Hk|].
+      apply IH. discriminate.
+  Qed.
+
+  Lemma serialisable_arr_cons (x : value F) (r : list (value F)) :
+    serialisable F ffinite (VArr (x :: r)) = (serialisable F ffinite x /\ serialisable F ffinite (VArr r)).
+  Proof. reflexivity. Qed.
+
+  Lemma serialisable_obj_cons (k : str) (x : value F) (r : list (str * value F)) :
+    serialisable F ffinite (VObj ((k, x) :: r)) = (str_ok k /\ serialisable F ffinite x /\ serialisable F ffinite (VObj r)).
+  Proof. reflexivity. Qed.
+
+  Lemma serialisable_arr (l : list (value F)) :
+    serialisable F ffinite (VArr l) <-> Forall (serialisable F ffinite) l.
+  Proof.
+    induction l as [|x r IH].
+    - split; intro; [constructor|exact I].
+    - rewrite serialisable_arr_cons. split.
+      + intros [H1 H2]. constructor; [exact H1|apply IH; exact H2].
+      + intro H. split; [exact (Forall_inv H)|apply IH; exact (Forall_inv_tail H)].
+  Qed.
+
+  Lemma serialisable_obj (m : list (str * value F)) :
+    serialisable F ffinite (VObj m) <-> Forall (fun kv => str_ok (fst kv) /\ serialisable F ffinite (snd kv)) m.
+  Proof.
+    induction m as [|[k x] r IH].
+    - split; intro; [constructor|exact I].
+    - rewrite serialisable_obj_cons. split.
+      + intros (H1 & H2 & H3). constructor; [cbn [fst snd]; tauto|apply IH; exact H3].
+      + intro H. pose proof (Forall_inv H) as H1. pose proof (Forall_inv_tail H) as H2. cbn [fst snd] in H1.
+        split; [tauto|]. split; [tauto|]. apply IH. exact H2.
+  Qed.
+
+  Lemma array_valid (ser : value F -> str) (indent : option (N * N)) (l : list (value F)) :
+    Forall (fun x => JV (ser x) x) l -> JV (array_to_string (map ser l) indent) (VArr l).
+  Proof.
+    intro H. destruct l as [|x r].
+    - apply (jv_array_empty F fparse false []). constructor.
+    - rewrite array_to_string_eq by discriminate. destruct indent as [[ind size]|].
+      + apply jv_array. apply joined_elems; [discriminate| | |exact H].
+        * constructor; [right; right; left; reflexivity|apply WS_spaces].
+        * constructor; [right; right; left; reflexivity|apply WS_spaces].
+      + apply jv_array. rewrite <- (app_nil_r (joined [] (map ser (x :: r)))).
+        apply joined_elems; [discriminate|constructor|constructor|exact H].
+  Qed.
+
+  Lemma object_valid (ser : value F -> str) (indent : option (N * N)) (m : list (str * value F)) :
+    Forall (fun kv => str_ok (fst kv) /\ JV (ser (snd kv)) (snd kv)) m ->
+    JV (object_to_string (map (fun kv => match kv with (k, x) => (string_to_string k, ser x) end) m) indent) (VObj m).
+  Proof.
+    intro H. destruct m as [|x r].
+    - apply (jv_object_empty F fparse false []). constructor.
+    - rewrite object_to_string_eq by (destruct x; discriminate). destruct indent as [[ind size]|].
+      + apply jv_object. apply (joined_members ser _ [0x20]); [discriminate| | | |exact H].
+        * constructor; [right; right; left; reflexivity|apply WS_spaces].
+        * constructor; [left; reflexivity|constructor].
+        * constructor; [right; right; left; reflexivity|apply WS_spaces].
+      + apply jv_object.
+        rewrite <- (app_nil_r (joined_o _ _ _)).
+        apply (joined_members ser [] [] []); [discriminate|constructor|constructor|constructor|exact H].
+  Qed.
+
+  Lemma serialize_value_valid (v : value F) :
+    serialisable F ffinite v -> JV (serialize F fdisplay v) v.
+  Proof.
+    induction v as [|b|x|s|l IH|m IH] using value_ind'; intro Hs.
+    - constructor.
+    - destruct b; constructor.
+    - cbn [serialize]. apply jv_number; [apply display_is_number; exact Hs|apply parse_display; exact Hs].
+    - apply string_to_string_valid. exact Hs.
+    - cbn [serialize]. apply array_valid. apply serialisable_arr in Hs.
+      rewrite Forall_forall in *. intros x Hx. apply IH; [exact Hx|apply Hs; exact Hx].
+    - cbn [serialize]. apply object_valid. apply serialisable_obj in Hs.
+      rewrite Forall_forall in *. intros kv Hkv. split; [apply Hs; exact Hkv|].
+      apply IH; [exact Hkv|apply Hs; exact Hkv].
+  Qed.
+
+  Lemma serialize_pretty_value_valid (size : N) (v : value F) :
+    serialisable F ffinite v -> forall indent, JV (serialize_pretty_indent F fdisplay indent size v) v.
+  Proof.
+    induction v as [|b|x|s|l IH|m IH] using value_ind'; intros Hs indent.
+    - constructor.
+    - destruct b; constructor.
+    - cbn [serialize_pretty_indent]. apply jv_number; [apply display_is_number; exact Hs|apply parse_display; exact Hs].
+    - apply string_to_string_valid. exact Hs.
+    - cbn [serialize_pretty_indent]. apply array_valid. apply serialisable_arr in Hs.
+      rewrite Forall_forall in *. intros x Hx. apply IH; [exact Hx|apply Hs; exact Hx].
+    - cbn [serialize_pretty_indent]. apply object_valid. apply serialisable_obj in Hs.
+      rewrite Forall_forall in *. intros kv Hkv. split; [apply Hs; exact Hkv|].
+      apply IH; [exact Hkv|apply Hs; exact Hkv].
+  Qed.
+
+  Lemma JValue_JText (t : str) (v : value F) : JV t v -> JText fparse t v.
+  Proof.
+    intro H. exists [], t, []. split; [rewrite app_nil_r; reflexivity|]. split; [constructor|]. split; [exact H|constructor].
+  Qed.
+
+  Theorem serialize_valid (v : value F) :
+    serialisable F ffinite v -> JText fparse (serialize F fdisplay v) v.
+  Proof. intro H. apply JValue_JText. apply serialize_value_valid. exact H. Qed.
+
+  Theorem serialize_pretty_valid (n : N) (v : value F) :
+    serialisable F ffinite v -> JText fparse (serialize_pretty F fdisplay n v) v.
+  Proof. intro H. apply JValue_JText. unfold serialize_pretty. apply serialize_pretty_value_valid. exact H. Qed.
+
+  (* round trip: the parser returns the value that was serialised *)
+  Theorem roundtrip (maxd : N) (v : value F) :
+    serialisable F ffinite v -> depth v <= maxd ->
+    parse_max_depth F fparse false maxd (serialize F fdisplay v) = Ok v.
+  Proof.
+    intros Hs Hd. unfold parse_max_depth. apply parse_with_fuel_complete; [apply serialize_valid; exact Hs|exact Hd|lia].
+  Qed.
+
+  Theorem roundtrip_pretty (maxd n : N) (v : value F) :
+    serialisable F ffinite v -> depth v <= maxd ->
+    parse_max_depth F fparse false maxd (serialize_pretty F fdisplay n v) = Ok v.
+  Proof.
+    intros Hs Hd. unfold parse_max_depth.
+    apply parse_with_fuel_complete; [apply serialize_pretty_valid; exact Hs|exact Hd|lia].
+  Qed.
+End Serialiser.
